@@ -18,7 +18,10 @@ var suitesByProp = map[string][]func(*runner, *rng){
 	"C13": {suiteOptimize},
 	"C16": {suiteDur, suiteFracFloat},
 	"C15": {suiteLin},
+	"C01": {suiteSrt},
 }
+
+func readRepoFile(rel string) ([]byte, error) { return os.ReadFile(repoDir + "/" + rel) }
 
 func main() {
 	prop := flag.String("prop", "", "property id")
